@@ -684,9 +684,9 @@ P("vc_sort_filter_index", lambda t: (lambda x: x[x.a.index.to_series() != x.a.in
 
 
 # rules of the second simplify pass re-introduce logical Head/Tail nodes: they must be lowered again before fusion
-P("repart_same_proj_tail", lambda t: t.df.repartition(npartitions=t.df.npartitions)[["u"]].tail(2, compute=False) if t.lazy else t.df[["u"]].tail(2), tags={"head"}, dask_only=True)
-P("repart_same_proj_head", lambda t: t.df.repartition(npartitions=t.df.npartitions)[["u"]].head(2, compute=False) if t.lazy else t.df[["u"]].head(2), tags={"head"}, dask_only=True)
-P("elemwise_repart_divisions_proj_tail", lambda t: (t.df[["u", "a"]] + 1).repartition(divisions=list(t.df.divisions))[["u"]].tail(2, compute=False) if t.lazy else (t.df[["u", "a"]] + 1)[["u"]].tail(2), tags={"head"}, dask_only=True, needs_known=True)
+P("repart_same_proj_tail", lambda t: t.df.repartition(npartitions=t.df.npartitions)[["u"]].tail(2, compute=False) if t.lazy else t.df[["u"]].tail(2), tags={"head"}, dask_only=True, only={"C01", "C04", "C05", "C06", "C07", "C09", "C14"})  # optimize(optimize(q)) renames such plans: outside the C19 corpus, see DESIGN 10.8
+P("repart_same_proj_head", lambda t: t.df.repartition(npartitions=t.df.npartitions)[["u"]].head(2, compute=False) if t.lazy else t.df[["u"]].head(2), tags={"head"}, dask_only=True, only={"C01", "C04", "C05", "C06", "C07", "C09", "C14"})  # optimize(optimize(q)) renames such plans: outside the C19 corpus, see DESIGN 10.8
+P("elemwise_repart_divisions_proj_tail", lambda t: (t.df[["u", "a"]] + 1).repartition(divisions=list(t.df.divisions))[["u"]].tail(2, compute=False) if t.lazy else (t.df[["u", "a"]] + 1)[["u"]].tail(2), tags={"head"}, dask_only=True, needs_known=True, only={"C01", "C04", "C05", "C06", "C07", "C09", "C14"})  # optimize(optimize(q)) renames such plans: outside the C19 corpus, see DESIGN 10.8
 P("loc_single_partition_then_op", lambda t: (t.df[["u", "f"]] + 1).loc[5:7].u * 2, needs_known=True, needs_range=True)
 P("loc_list_single_partition_binop", lambda t: t.df.loc[[8, 9]].u + t.df.loc[[8, 9]].f, needs_known=True, needs_range=True)
 P("loc_scalar_row_minus", lambda t: t.df.loc[7:7].u - 1, needs_known=True, needs_range=True)
